@@ -34,7 +34,8 @@ type sessLog struct {
 	Stamps    []int64
 	Psync     []fakeredis.PsyncEvent
 	Obs       map[int64]psyncObs
-	Ended     string // sentinel | tool-exited | refused | churn | watchdog
+	CpTrace   map[int][]cpEntry // index into Apps → positions stored after that command
+	Ended     string            // sentinel | tool-exited | refused | churn | watchdog
 	RunErr    string
 	Sentinels []string
 	Attempts  int
@@ -57,6 +58,9 @@ type caseRun struct {
 	curCache *cacheBox
 	obs      map[int64]psyncObs
 
+	cpModel map[int]map[string]string // db → checkpoint hash, rebuilt from the effect log
+	cpTrace map[int][]cpEntry         // applied index → positions stored after that command
+
 	abort chan struct{} // closed by a target hook: the phase ends ("cut")
 
 	// target-fault state (atomics: read in the target's hook, written in the source's hook)
@@ -70,6 +74,8 @@ type caseRun struct {
 func (cr *caseRun) onPsync(ev fakeredis.PsyncEvent) {
 	n := cr.psyncN.Add(1)
 	switch cr.p.C.TFault {
+	case "startup":
+		// armed from the beginning, see armTargetFault
 	case "reset":
 		if !ev.Continue && cr.armedAt.Load() == 0 {
 			cr.armedAt.Store(n) // first +FULLRESYNC of the reconnect
@@ -102,6 +108,15 @@ func (cr *caseRun) armTargetFault() {
 	// look-up of the run id in the checkpoint-hash key; its writes are counted from there
 	writes, attempts, inAttempt := 0, 0, false
 	cr.tgt.SetHooks(nil, func(q *fakeredis.Req) (fakeredis.Reply, bool) {
+		if p.C.TFault == "startup" {
+			// one look-up of the checkpoint name under the PREVIOUS replication id fails (start-up bookkeeping)
+			if !cr.faultOver.Load() && q.Conn >= 0 && q.Cmd == "HGET" && isHash(q) && len(q.Args) > 1 && string(q.Args[1]) == p.SrcID2 {
+				cr.faultOver.Store(true)
+				cr.faultErrors.Add(1)
+				return fakeredis.Err("LOADING verif: target is loading the dataset in memory"), true
+			}
+			return nil, false
+		}
 		at := cr.armedAt.Load()
 		if at == 0 || cr.faultOver.Load() || q.Conn < 0 {
 			return nil, false
@@ -208,9 +223,12 @@ func (cr *caseRun) stamp() int64 { return cr.ctr.Add(1) }
 
 func (cr *caseRun) hookTarget() {
 	cr.want = map[string]chan struct{}{}
+	cr.cpModel = map[int]map[string]string{}
+	cr.cpTrace = map[int][]cpEntry{}
 	cr.tgt.SetOnApplied(func(a *fakeredis.App) {
 		st := cr.stamp()
 		cr.mu.Lock()
+		cr.traceCheckpoint(a)
 		for len(cr.stamps) <= a.Idx {
 			cr.stamps = append(cr.stamps, 0)
 		}
@@ -225,6 +243,79 @@ func (cr *caseRun) hookTarget() {
 		}
 		cr.mu.Unlock()
 	})
+}
+
+// cpEntry: one stored position (run id, offset) in one database of the target.
+type cpEntry struct {
+	ID  string
+	Off int64
+	DB  int
+}
+
+// traceCheckpoint keeps a model of the checkpoint hash of every database (from the target's
+// effect log) and remembers, for every command that touched it, the positions stored afterwards.
+// Called with cr.mu held.
+func (cr *caseRun) traceCheckpoint(a *fakeredis.App) {
+	if a.IsErr || len(a.Args) == 0 {
+		return
+	}
+	touched := false
+	switch a.Cmd {
+	case "HSET", "HMSET":
+		if string(a.Args[0]) == config.CheckpointKey {
+			m := cr.cpModel[a.DB]
+			if m == nil {
+				m = map[string]string{}
+				cr.cpModel[a.DB] = m
+			}
+			for i := 1; i+1 < len(a.Args); i += 2 {
+				m[string(a.Args[i])] = string(a.Args[i+1])
+			}
+			touched = true
+		}
+	case "HDEL":
+		if string(a.Args[0]) == config.CheckpointKey {
+			for _, f := range a.Args[1:] {
+				delete(cr.cpModel[a.DB], string(f))
+			}
+			touched = true
+		}
+	case "DEL", "UNLINK":
+		for _, k := range a.Args {
+			if string(k) == config.CheckpointKey {
+				delete(cr.cpModel, a.DB)
+				touched = true
+			}
+		}
+	}
+	if !touched {
+		return
+	}
+	var es []cpEntry
+	for db, m := range cr.cpModel {
+		for f, v := range m {
+			if !strings.HasSuffix(f, "_offset") {
+				continue
+			}
+			var off int64
+			if _, err := fmt.Sscan(v, &off); err == nil {
+				es = append(es, cpEntry{ID: strings.TrimSuffix(f, "_offset"), Off: off, DB: db})
+			}
+		}
+	}
+	cr.cpTrace[a.Idx] = es
+}
+
+func (cr *caseRun) traceFrom(n0, n int) map[int][]cpEntry {
+	cr.mu.Lock()
+	defer cr.mu.Unlock()
+	out := map[int][]cpEntry{}
+	for i := 0; i < n; i++ {
+		if es, ok := cr.cpTrace[n0+i]; ok {
+			out[i] = es
+		}
+	}
+	return out
 }
 
 func (cr *caseRun) expect(id string) chan struct{} {
@@ -315,6 +406,9 @@ func countInfo(srv *fakeredis.Server, from int) int {
 // drive one (re)connection phase: feed the live bytes, wait for logical completion.
 // t == nil: the tool is already running (in-loop reconnect).
 func (cr *caseRun) phase(t *tool, src *fakeredis.Server, h *history, liveFrom int64, sentinel string, tag string, preFeed int, n0 int, reqFrom int, psyncFrom int) *sessLog {
+	if sentinel == "" {
+		return cr.idlePhase(t, src, n0, reqFrom, psyncFrom)
+	}
 	s := &sessLog{}
 	so := src.Source()
 	// completion sentinel: the last command of the live part; further ones only when a full
@@ -406,6 +500,62 @@ loop:
 	s.Stamps = cr.stampsFrom(n0, len(apps))
 	s.Psync = so.PsyncLog()[psyncFrom:]
 	s.Obs = cr.observations()
+	s.CpTrace = cr.traceFrom(n0, len(apps))
+	return s
+}
+
+// idlePhase: the source produces nothing after the reconnect.  Logical completion: the newest
+// PSYNC was granted and the tool has acknowledged on that link afterwards (REPLCONF ACK).
+func (cr *caseRun) idlePhase(t *tool, src *fakeredis.Server, n0 int, reqFrom int, psyncFrom int) *sessLog {
+	s := &sessLog{}
+	so := src.Source()
+	totalAcks := func() int {
+		n := 0
+		for _, a := range so.Acks() {
+			n += a.Count
+		}
+		return n
+	}
+	deadline := time.After(sessionWatchdog)
+	tick := time.NewTicker(5 * time.Millisecond)
+	defer tick.Stop()
+	seen, acksAt := 0, 0
+loop:
+	for {
+		select {
+		case err := <-t.done:
+			s.Ended, s.RunErr = "tool-exited", fmt.Sprint(err)
+			t.done <- err
+			break loop
+		case <-deadline:
+			s.Ended = "watchdog"
+			break loop
+		case <-tick.C:
+			evs := so.PsyncLog()[psyncFrom:]
+			if len(evs) != seen {
+				seen, acksAt = len(evs), totalAcks()
+			}
+			if seen > 0 && evs[seen-1].Continue && totalAcks() > acksAt {
+				s.Ended = "idle-acked"
+				break loop
+			}
+			s.Attempts = countInfo(src, reqFrom)
+			if s.Attempts >= refusalAttempts {
+				s.Ended = "refused"
+				break loop
+			}
+			if len(evs) >= churnPsyncs {
+				s.Ended = "churn"
+				break loop
+			}
+		}
+	}
+	apps := cr.tgt.Applied()[n0:]
+	s.Apps = apps
+	s.Stamps = cr.stampsFrom(n0, len(apps))
+	s.Psync = so.PsyncLog()[psyncFrom:]
+	s.Obs = cr.observations()
+	s.CpTrace = cr.traceFrom(n0, len(apps))
 	return s
 }
 
